@@ -52,6 +52,8 @@ def gen_config(rng, pipe_in=None):
     for a in DEBUG_AREAS:
         if rng.chance(25):
             cfg["debug_env"]["DEBUG_" + a.upper()] = rng.choice(["1", "0", "x", ""])
+    # what the non-terminal ends are: `cmd | btcdeb`, `btcdeb < file`, `btcdeb < /dev/null`, a socket; same for stdout
+    cfg["fdkind"] = rng.weighted([(5, "p"), (4, "f"), (1, "c")]) + rng.weighted([(5, "p"), (3, "f"), (1, "c"), (1, "s")])
     return cfg
 
 
@@ -221,6 +223,7 @@ def world_for(scn, cfg, stdin_fault=None, verbose=False):
         env["DEBUG_SET_PIPE_OUT"] = val
     s2["env"] = env
     s2["script_on_stdin"] = pipe_in
+    s2["fdkind"] = cfg.get("fdkind", "pp")
     w = session.build_world(s2, sched=[], faults=False)
     if pipe_in and cfg.get("stdin_delay_ms"):
         w["stdin_delay_ms"] = cfg["stdin_delay_ms"]
